@@ -42,6 +42,9 @@ def run(rep, tier):
         H.r_mode2_record(rep, hc)
     else:
         rep.inconc("anchor", "anchor:DefaultSolOut::solout", "default output handler not found")
+    rep.rule("R-ZERO-SPAN", "solve_ivp answers a zero-length run itself: the shortcut's condition holds for x0 == xend at every magnitude of the end points, 0 included (numeric evaluation of the symbolic condition)")
+    import obs as _obs
+    _obs.r_zero_span(rep, f)
     rep.explanation = ("Structural / symbolic, all paths: landing on xend and honest Success via exact symbolic identities over x, h, xend (with an inductive proof for "
                        "carried last-step flags), landing-test coverage of every freshly chosen step, stage abscissae inside the step, Interrupt handling, pairing of t and y. "
                        "Not decided: strict monotonicity / never passing xend as floating-point facts, Brent iterates staying in the bracket, finiteness of values.")
